@@ -1,6 +1,6 @@
 """C14 — polytope constructors and transformations are set-exact (exact arithmetic, structural part)."""
 from ..mir import Callee, Resolver, fmt, literals, walk, strip_sites as s
-from ..kernel import Kernel, Poly, Block, Aff, symaff, OutOfFragment, kernel_return
+from ..kernel import Kernel, Poly, Block, Aff, symaff, OutOfFragment, kernel_return, kernel_return_soft
 from . import prune
 from .prune import is_call
 from .c16 import obligation
@@ -73,7 +73,7 @@ def run(ctx):
     obligation(ctx, 'C14.R2', F, 'AffFuncBase::empty', lambda e: Aff(Poly.zero(), -one), impl_filter=poly)
     b = ctx.body('C14.R2', 'AffFuncBase::hypercube')
     if b is not None:
-        R, ret = kernel_return(F, b)
+        R, ret = kernel_return_soft(F, b)
         got = Kernel(F).ev(ret[2][0], {}) if is_call(ret, 'AffFuncBase::from_mats') else None
         bias = ret[2][1] if is_call(ret, 'AffFuncBase::from_mats') else None
         okm = got == Block([Poly.const(1), -Poly.const(1)])
@@ -208,7 +208,7 @@ def contains(ctx, F):
     b = ctx.body('C14.R1', 'AffFuncBase::contains')
     if b is None:
         return
-    R, ret = kernel_return(F, b)
+    R, ret = kernel_return_soft(F, b)
     ok = is_call(ret, 'Iterator::all') and is_call(ret[2][0], 'AffFuncBase::distance_raw') and ret[2][0][2] == (('param', 'self'), ('param', 'point'))
     why = ''
     if ok:
